@@ -106,7 +106,24 @@ func c15Group(w *hx.Writer, root string, g, base int, hists []c15Hist) {
 		hx.Die("NewRDB: %v", err)
 	}
 	buffered := make([][]c15Line, len(hists))
+	bdir := filepath.Join(root, fmt.Sprintf("bak%d", g))
+	rdir := filepath.Join(root, fmt.Sprintf("res%d", g))
+	os.MkdirAll(bdir, 0o755)
+	os.MkdirAll(rdir, 0o755)
 	for i, h := range hists {
+		if i == len(hists)-1 && i > 0 {
+			// an earlier backup into the same backup directory, taken just before the last history (usually within the
+			// same second as the final one): the restore must pick the latest one
+			if err := db.Close(); err != nil {
+				hx.Die("close: %v", err)
+			}
+			if err := rdb.Backup(dbdir, bdir); err != nil {
+				hx.Die("backup: %v", err)
+			}
+			if db, err = rdb.NewRDB(dbdir); err != nil {
+				hx.Die("reopen: %v", err)
+			}
+		}
 		id := base + i
 		pfx := fmt.Sprintf("h%07d/", id)
 		lines := []c15Line{{Ev: "reset", H: id, Src: h.src}}
@@ -154,10 +171,6 @@ func c15Group(w *hx.Writer, root string, g, base int, hists []c15Hist) {
 	if err := db.Close(); err != nil {
 		hx.Die("close: %v", err)
 	}
-	bdir := filepath.Join(root, fmt.Sprintf("bak%d", g))
-	rdir := filepath.Join(root, fmt.Sprintf("res%d", g))
-	os.MkdirAll(bdir, 0o755)
-	os.MkdirAll(rdir, 0o755)
 	if err := rdb.Backup(dbdir, bdir); err != nil {
 		hx.Die("backup: %v", err)
 	}
@@ -256,10 +269,14 @@ func c15Random(rng *rand.Rand, n int) c15Hist {
 			h.ops = append(h.ops, c15Op{Op: "del", K: p[0], V: p[1]})
 		default:
 			op := c15Op{Op: "batch"}
-			for j, m := 0, rng.Intn(5); j < m; j++ {
+			na, nd := rng.Intn(5), rng.Intn(5)
+			if rng.Intn(3) == 0 { // deletions only, several per key, keys interleaved
+				na, nd = 0, 3+rng.Intn(4)
+			}
+			for j := 0; j < na; j++ {
 				op.Adds = append(op.Adds, pickPair(false))
 			}
-			for j, m := 0, rng.Intn(5); j < m; j++ {
+			for j := 0; j < nd; j++ {
 				if len(op.Adds) > 0 && rng.Intn(3) == 0 {
 					op.Dels = append(op.Dels, op.Adds[rng.Intn(len(op.Adds))]) // delete what the same batch adds
 				} else {
